@@ -105,6 +105,9 @@ def cmp : Kind → Ep → Ep → Ep → Bool
 /-- `item in interval` -/
 def contains (k : Kind) (iv : List Range) (x : Ep) : Bool := iv.any fun r => cmp k r.1 x r.2
 
+/-- `range_endpoints()`: all range start and stop values (a set in Python: order and multiplicity are not observable) -/
+def rangeEndpoints (iv : List Range) : List Ep := iv.flatMap fun r => [r.1, r.2]
+
 /-- numeric form of `_cmp_open` on a linear scale (µs of day) -/
 def inOpen (lo x hi : Nat) : Bool :=
   if lo < hi then decide (lo ≤ x) && decide (x < hi) else decide (lo ≤ x) || decide (x < hi)
